@@ -872,7 +872,7 @@ void lp_dyadic_interval_set_a(lp_dyadic_interval_t* I, const lp_dyadic_rational_
     assert(cmp <= 0);
     if (cmp < 0) {
       dyadic_rational_construct_copy(&I->b, &I->a);
-      dyadic_rational_construct_copy(&I->a, a);
+      dyadic_rational_assign(&I->a, a);
       I->is_point = 0;
       I->a_open = a_open;
       I->b_open = 0;
